@@ -149,6 +149,55 @@ theorem rtl_output_label (inc unc : List Nat) (L r : Nat) (avoid : Bool) (perm1 
     unfold monoOf; split_ifs <;> omega
 
 
+/-! ### RTL: "at least one input" follows from acceptance
+
+`rtl_structure` / `rtl_output_label` assume `0 < #inputs`.  The real `_get_rtl_structure` never returns for a
+layer without inputs: `0 ≤ num_lattices·rank` passes the "too small" check and `total_usage //
+len(rtl_inputs)` raises `ZeroDivisionError` (rtl_layer.py:570; `RTL(...)(tf.zeros((2, 0)))`).  `rtlStructure`
+models that exit as `.error .other` (not as Lean's `x / 0 = 0`), so the hypothesis is discharged for every
+accepted layer.  No arrangement can give each lattice `lattice_rank` of zero features: the empty feature set
+is outside C17's quantifier, the error class is not a clause of C17. -/
+
+/-- **C17-T1 (RTL), no inputs.** A layer without inputs is not given a structure: `ZeroDivisionError`. -/
+theorem rtl_no_inputs_raises (inc unc : List Nat) (L r : Nat) (avoid : Bool) (perm1 perm2 : List Nat) (fuel : Nat)
+    (h0 : (rtlInputs inc unc).length = 0) :
+    rtlStructure inc unc L r avoid perm1 perm2 fuel = .error .other := by
+  unfold rtlStructure
+  simp [h0]
+
+/-- **C17-T1 (RTL), acceptance ⇒ at least one input and enough slots.** -/
+theorem rtl_accepted_has_inputs (inc unc : List Nat) (L r : Nat) (avoid : Bool) (perm1 perm2 : List Nat) (fuel : Nat)
+    (s : Structure) (cap : Bool) (h : rtlStructure inc unc L r avoid perm1 perm2 fuel = .ok (s, cap)) :
+    0 < (rtlInputs inc unc).length ∧ (rtlInputs inc unc).length ≤ L * r := by
+  unfold rtlStructure at h
+  split_ifs at h with hsmall hzero
+  omega
+
+/-- **C17-T1 (RTL) for accepted layers.** `rtl_structure` without the hypothesis `0 < #inputs`. -/
+theorem rtl_structure_accepted (inc unc : List Nat) (L r : Nat) (avoid : Bool) (perm1 perm2 : List Nat) (fuel : Nat)
+    (s : Structure) (cap : Bool)
+    (hp1 : perm1.Perm (List.range (rtlInputs inc unc).length)) (hp2 : perm2.Perm (List.range (L * r)))
+    (h : rtlStructure inc unc L r avoid perm1 perm2 fuel = .ok (s, cap)) :
+    (lattices s).length = L ∧
+    (∀ g ∈ s, ∀ lat ∈ g.2, lat.length = r ∧ g.1 = lat.map (monoOf inc)) ∧
+    (∀ i, i < (rtlInputs inc unc).length →
+      1 ≤ usage s i ∧ L * r / (rtlInputs inc unc).length ≤ usage s i ∧
+      usage s i ≤ L * r / (rtlInputs inc unc).length + 1) :=
+  rtl_structure inc unc L r avoid perm1 perm2 fuel s cap
+    (rtl_accepted_has_inputs inc unc L r avoid perm1 perm2 fuel s cap h).1 hp1 hp2 h
+
+/-- **C17-T1 (RTL), output label, for accepted layers.** -/
+theorem rtl_output_label_accepted (inc unc : List Nat) (L r : Nat) (avoid : Bool) (perm1 perm2 : List Nat)
+    (fuel : Nat) (s : Structure) (cap : Bool)
+    (hp1 : perm1.Perm (List.range (rtlInputs inc unc).length)) (hp2 : perm2.Perm (List.range (L * r)))
+    (h : rtlStructure inc unc L r avoid perm1 perm2 fuel = .ok (s, cap)) :
+    ∀ g ∈ s, ∀ lat ∈ g.2, (outputIncreasing g.1 = true ↔ ∃ i ∈ lat, i < inc.sum) :=
+  rtl_output_label inc unc L r avoid perm1 perm2 fuel s cap
+    (rtl_accepted_has_inputs inc unc L r avoid perm1 perm2 fuel s cap h).1 hp1 hp2 h
+
+/-- two lattices of rank 2 over zero inputs (`RTL(num_lattices=2, lattice_rank=2)(tf.zeros((2, 0)))`) -/
+example : rtlStructure [] [] 2 2 true [] [0, 1, 2, 3] = .error .other := by decide +kernel
+
 /-- **C17-T2 (random ensemble).** For every number of features, lattice count, rank and every
 sequence of `np.random.choice` draws (hence every seed): whenever `set_random_lattice_ensemble`
 returns, there are `num_lattices` lattices, each with exactly `lattice_rank` features, no
